@@ -28,7 +28,7 @@ PROPS = {
               ' Also: the index up to which a message is taken to have verified the log is derived from the message, never from the own log end; the journal head is dropped exactly up to the position the finished dump covers; log, applied / commit / match / next index are written only by their protocol owners.',
               ['agreement of two nodes under all schedules (global argument over interleavings, nextIndex/matchIndex dynamics, snapshot timing)'],
               'CFG reachability with obligation nodes removed (must-pass-through), path-sensitive must-facts, who-may-call'),
-    'C02': _p(['R-cb-linear', 'R-success-guard', 'R-disposition', 'R-commit-subscription', 'R-request-id-unique', 'R-commit-gate', 'R-owners-callbacks', 'L-undefined-name', 'R-err-helper-delivers'],
+    'C02': _p(['R-cb-linear', 'R-success-guard', 'R-disposition', 'R-commit-subscription', 'R-request-id-unique', 'R-commit-gate', 'R-owners-callbacks', 'L-undefined-name', 'R-err-helper-delivers', 'L-none-call'],
               'callback linearity (a callback taken from the queue or a waiting table is consumed exactly once on every path); SUCCESS only under '
               'stored-term == applied-term with the dispatch result of that entry; exactly one disposition (append / forward / error) per dequeued command; '
               'a callback waits at exactly the (index, term) its command was appended with; request ids never reused.'
@@ -49,7 +49,7 @@ PROPS = {
               ' Also: membership entries rolled back before a truncation are exactly the deleted ones; the verified index comes from the message; state ownership.',
               ['Log Matching as a global invariant'],
               'must-facts with alias/congruence closure, CFG dominance, small-domain arithmetic'),
-    'C05': _p(['R-timer-reset', 'R-heartbeat', 'R-vote-refusal-justified', 'R-sender-total', 'R-chunk-length', 'R-reply-exhaustive', 'R-disposition', 'R-serializer-idle', 'R-hint-floor', 'R-owners-election', 'L-undefined-name'],
+    'C05': _p(['R-timer-reset', 'R-heartbeat', 'R-vote-refusal-justified', 'R-sender-total', 'R-chunk-length', 'R-reply-exhaustive', 'R-disposition', 'R-serializer-idle', 'R-hint-floor', 'R-owners-election', 'L-undefined-name', 'L-none-call'],
               'progress obligations only: election deadline re-armed by accepted append_entries / grant / candidacy and candidacy guarded by the deadline; every '
               'iteration of the per-follower send loop sends; next index moved past a finished snapshot; every (reset, success) reply combination is acted on and refreshes '
               'the response time; no dequeued command is dropped silently.'
@@ -104,7 +104,7 @@ PROPS = {
               ' Also: reads are not gated on the buffered amount; every raising step on data derived from the payload is inside the catch-all; the end of the buffered frames is decided by identity with None.',
               ['behaviour of the kernel socket layer', '"for all fragmentations" as such (follows from R-parser-state: delivery is a function of the byte stream)'],
               'must-facts on slice bounds, exception-edge containment, event counting per path, table agreement with struct.calcsize'),
-    'C14': _p(['R-attribution', 'R-drop-teardown', 'R-dial-order', 'R-send-connected', 'R-silent-timeout', 'R-reconnect-wiring', 'R-disconnect-idempotent', 'R-readonly-id-unique', 'R-disc-attribution', 'R-established-checked', 'L-undefined-name', 'R-callback-wiring'],
+    'C14': _p(['R-attribution', 'R-drop-teardown', 'R-dial-order', 'R-send-connected', 'R-silent-timeout', 'R-reconnect-wiring', 'R-disconnect-idempotent', 'R-readonly-id-unique', 'R-disc-attribution', 'R-established-checked', 'L-undefined-name', 'R-callback-wiring', 'L-none-call'],
               'attribution only: delivery callback bound only after the peer named a known member or "readonly", bound node taken from the member table; dropNode tears down registry, '
               'member set, address table and connection; exactly one endpoint dials and only without a live connection; send only to a registered CONNECTED connection.'
               ' Also: a lost connection is attributed to a member only by comparing the registry entries with the connection object; CONNECTED is entered only behind a clear SO_ERROR.',
@@ -116,7 +116,7 @@ PROPS = {
               ' Also: no wrapper decides absence of a key from a None lookup result (None is a value).',
               ['behavioural equivalence over operation sequences for the non-delegating methods', 'equality of replicas'],
               'signature-table agreement (cross-checked with inspect.signature of builtins), guard entailment'),
-    'C16': _p(['R-lock-guards', 'R-expiry-partition', 'R-late-acquire', 'L-undefined-name'],
+    'C16': _p(['R-lock-guards', 'R-expiry-partition', 'R-late-acquire', 'L-undefined-name', 'L-none-call'],
               'lock table transitions happen only under their guards; holder view and taker views of expiry are disjoint over (d<U, d=U, d>U); both acquisition paths apply the same '
               'late-acquire test, report failure and release; prolongation period at most half the auto-unlock time.'
               ' Also: after the "too late" test every path releases the lock and reports False, and both ends of the elapsed time come from the same clock.',
@@ -129,7 +129,7 @@ PROPS = {
               ' Also: every (wildcard) store of the enabled version reaches a rebuild of the name table on all normal paths; own and consumer methods are selected for id assignment by the same filter.',
               ['compatibility of old and new user code'],
               'def-use on sort keys, expression-shape agreement, guard entailment'),
-    'C18': _p(['R-majority', 'R-no-vote-without-address', 'R-observer-bookkeeping', 'R-readonly-id-unique', 'R-selfnode-deref', 'R-apply-on-append', 'R-owners-membership', 'R-sender-total', 'L-undefined-name', 'R-callback-wiring'],
+    'C18': _p(['R-majority', 'R-no-vote-without-address', 'R-observer-bookkeeping', 'R-readonly-id-unique', 'R-selfnode-deref', 'R-apply-on-append', 'R-owners-membership', 'R-sender-total', 'L-undefined-name', 'R-callback-wiring', 'L-none-call'],
               'all majorities measure and count the voter set only; no candidacy or vote without an own address, vote requests to voters only, observers only receive append_entries; '
               'observer connect/disconnect touch only observer bookkeeping; no unguarded dereference of the (possibly absent) own node in tick-reachable code.'
               ' Also: read-only nodes apply stored membership entries like voters do; voter / observer / connected sets have fixed owners.',
